@@ -1490,6 +1490,9 @@ static void vi(void)
 	while (!xquit) {
 		int mod = 0;
 		int nrow = xrow;
+#ifdef NEATVI_VERIF
+		neatvi_verif_progress();
+#endif
 		int noff = ren_noeol(lbuf_get(xb, xrow), xoff);
 		int otop = xtop;
 		int oleft = xleft;
